@@ -8,7 +8,7 @@ from vlib.runner import Spec, Suite
 HARNESS = ("h_generator", ["h_generator.cpp"], {})
 HARNESS_T = ("h_generator_t", ["h_generator_t.cpp"], {"extra_flags": ["-fno-access-control", "-I/verif/harness/shim"]})
 
-ACCESS = ("next", "anext", "call", "begin", "inc", "pinc", "for", "sub", "subr")
+ACCESS = ("next", "nnext", "anext", "call", "begin", "beginc", "inc", "pinc", "for", "while", "sub", "subr")
 REJECT = ("busy", "gone", "n/a", "noit", "bad-op", "blocked", "bad")
 
 
@@ -112,15 +112,15 @@ def split_line(line):
 # random suites: (name, P(generator<int,int>), body flavours, consumer styles for generator<int> / generator<int,int>, cases quick / thorough)
 PROFILES = {
     "mixed-styles": dict(p_arg=0.35, flavours=["sync", "sync", "async", "async", "mixed", "guards"],
-                         styles_v=["next", "anext", "call", "sub", "iter", "for", "mixed", "mixed"],
-                         styles_a=["next", "anext", "call", "sub", "mixed", "mixed"], quick=3000, thorough=120000, corpus=True),
-    "sync-access-of-async-body": dict(p_arg=0.3, flavours=["async", "mixed"], styles_v=["next", "iter", "for", "call-wait"],
-                                      styles_a=["next", "call-wait"], quick=1500, thorough=80000),
+                         styles_v=["next", "anext", "call", "sub", "iter", "for", "while", "mixed", "mixed"],
+                         styles_a=["next", "anext", "call", "sub", "while", "mixed", "mixed"], quick=3000, thorough=120000, corpus=True),
+    "sync-access-of-async-body": dict(p_arg=0.3, flavours=["async", "mixed"], styles_v=["next", "iter", "for", "while", "call-wait"],
+                                      styles_a=["next", "while", "call-wait"], quick=1500, thorough=80000),
     "async-access": dict(p_arg=0.4, flavours=["async", "mixed", "sync"], styles_v=["anext", "call", "sub", "mixed"],
                          styles_a=["anext", "call", "sub", "mixed"], quick=1500, thorough=80000),
     "reentrant-callback": dict(p_arg=0.5, flavours=["async", "mixed", "args", "sync"], styles_v=["sub", "sub", "mixed"],
                                styles_a=["sub", "sub", "mixed"], quick=2000, thorough=80000),
-    "arguments": dict(p_arg=1.0, flavours=["args", "args", "mixed"], styles_v=["mixed"], styles_a=["next", "anext", "call", "mixed", "mixed"],
+    "arguments": dict(p_arg=1.0, flavours=["args", "args", "mixed"], styles_v=["mixed"], styles_a=["next", "anext", "call", "while", "mixed", "mixed"],
                       quick=1500, thorough=70000),
     "destroy-parked": dict(p_arg=0.2, flavours=["guards"], styles_v=["next", "anext", "call", "iter", "mixed"],
                            styles_a=["next", "anext", "call", "mixed"], quick=1500, thorough=60000, p_destroy=0.85),
@@ -201,7 +201,12 @@ class GenSuite(Suite):
                     arg += nre
                     return "subr %d %d" % (nre, base) if nre or rng.random() < 0.5 else "sub %d" % base
                 return "subr %d" % nre if nre or rng.random() < 0.5 else "sub"
-            if mode == "a" and kind in ("next", "anext", "call"):
+            if mode == "a" and kind == "while":
+                arg += rng.randint(1, 5)
+                base = arg
+                arg += 16                                 # the loop passes base, base+1, ...
+                return "while %d" % base
+            if mode == "a" and kind in ("next", "nnext", "anext", "call"):
                 arg += rng.randint(1, 5)
                 return "%s %d" % (kind, arg)
             return kind
@@ -227,7 +232,13 @@ class GenSuite(Suite):
                 break
             r = rng.random()
             if style == "next":
-                ops = [access("next")] + (["value"] if rng.random() < 0.8 else [])
+                ops = [access(rng.choice(["next", "next", "nnext"]))] + (["value"] if rng.random() < 0.8 else [])
+                if rng.random() < 0.25:
+                    ops.append(rng.choice(["active", "active", "getid"]))
+            elif style == "while":
+                ops = [rng.choice(["active", access("next"), access("nnext"), access("while"), access("while")])]
+                if ops[0].split()[0] in ("next", "nnext"):
+                    ops.append("value")
             elif style == "anext":
                 ops = [access("anext")]
                 if ks and rng.random() < 0.6:
@@ -255,12 +266,12 @@ class GenSuite(Suite):
                     ops.insert(1, rng.choice(["fawait", "fhas"]))
             elif style == "iter":
                 if not have_it:
-                    ops = ["begin", "isend", "deref"]
+                    ops = [rng.choice(["begin", "beginc"]), "isend", rng.choice(["deref", "arrow"])]
                     have_it = True
                 else:
                     ops = [rng.choice(["inc", "inc", "pinc"]), "isend"]
                     if rng.random() < 0.8:
-                        ops.append("deref")
+                        ops.append(rng.choice(["deref", "arrow"]))
             elif style == "for":
                 ops = [rng.choice(["for", "for", "next", "begin", "call", "anext"])]
                 if ops[0] in ("next", "anext"):
@@ -270,17 +281,17 @@ class GenSuite(Suite):
                 if ops[0] == "anext" and ks:
                     ops.append(completion())
             else:
-                kinds = ["next", "anext", "call", "sub", "value", "complete", "fread"]
+                kinds = ["next", "nnext", "anext", "call", "sub", "value", "complete", "fread", "while", "active", "getid"]
                 if mode == "v":
-                    kinds += ["begin", "inc", "pinc", "deref", "isend", "for"]
+                    kinds += ["begin", "beginc", "inc", "pinc", "deref", "arrow", "isend", "for"]
                 k = rng.choice(kinds)
                 if k == "complete":
                     ops = [completion()]
                 elif k == "fread":
                     ops = [rng.choice(["fwait", "fget", "fawait", "fhas"])]
-                elif k in ("next", "anext", "call", "sub"):
+                elif k in ("next", "nnext", "anext", "call", "sub", "while"):
                     ops = [access(k)]
-                    if rng.random() < 0.5:
+                    if rng.random() < 0.5 and k != "while":
                         ops.append("value" if k != "call" else rng.choice(["fwait", "fget", "fawait", "fhas"]))
                 else:
                     ops = [k]
@@ -335,13 +346,14 @@ class GenSuite(Suite):
                     # the harness only starts an access once the previous future is resolved
                     cur = inflight[1]
                     inflight = None
-                if kind == "for":
+                if kind in ("for", "while"):
                     # consumes accesses nacc, nacc+1, ...: one per printed value plus the one that ended the loop
+                    # (`while (gen)` that finds the generator done makes no access at all: only counted, it is past the end anyway)
                     items = res
                     for j, itx in enumerate(items):
-                        check_item(nacc + j, itx, "range-for")
+                        check_item(nacc + j, itx, "range-for" if kind == "for" else "while (gen) / !gen.next()")
                     if not items or items[-1].startswith("v:"):
-                        msgs.append("lost: range-for produced no end marker")
+                        msgs.append("lost: %s loop produced no end marker" % kind)
                     nacc += len(items)
                     cur = nacc - 1
                 else:
@@ -350,10 +362,10 @@ class GenSuite(Suite):
                     last_arg = int(w[2]) if len(w) > 2 else 0
                 elif len(w) > 1:
                     last_arg = int(w[1])
-                if kind == "next":
-                    check_truth(started, res[0], "next()")
+                if kind in ("next", "nnext"):
+                    check_truth(started, res[0], "next()" if kind == "next" else "!next()")
                     cur = started
-                elif kind in ("begin", "inc"):
+                elif kind in ("begin", "beginc", "inc"):
                     check_truth(started, res[0], kind)
                     cur = started
                 elif kind == "pinc":
@@ -386,9 +398,12 @@ class GenSuite(Suite):
             # argument delivery: the body is resumed from a co_yield by access i (1 <= i <= n): it must receive exactly this call's
             # argument, at once; events are processed in order of occurrence (a callback may re-arm itself inside its notification)
             need_got = None
-            if mode == "a" and started is not None and kind in ("next", "anext", "call", "sub", "subr") and 1 <= started <= n:
+            if mode == "a" and started is not None and kind in ("next", "nnext", "anext", "call", "sub", "subr") and 1 <= started <= n:
                 need_got = (started, last_arg)
             for e in evs:
+                if e.startswith("arg="):
+                    last_arg = int(e[4:])      # the while loop issues its next access with this argument
+                    continue
                 if e.startswith("got="):
                     g = int(e[4:])
                     if mode == "a" and g != last_arg:
@@ -454,8 +469,18 @@ class GenSuite(Suite):
                     msgs.append("lost: a future that had been resolved reads as pending")
             if kind == "fwait" and res and res[0] == "pending":
                 msgs.append("lost: future.wait() returned on a pending future")
-            if kind in ("value", "deref") and res and not rejected and alive and not inflight:
-                check_read(cur, res[0], "value()" if kind == "value" else "*it")
+            if kind in ("value", "deref", "arrow") and res and not rejected and alive and not inflight:
+                check_read(cur, res[0], {"value": "value()", "deref": "*it", "arrow": "it->"}[kind])
+            if kind == "active" and res and not rejected and alive and not inflight:
+                # bool(gen) must stay true until the body's regular end has been delivered (a `while (gen)` consumer must not stop early)
+                # and be false afterwards (it must not go on for ever); after an exception the pinned code keeps it true
+                delivered_end = cur is not None and cur >= n and ending == "fin"
+                if res[0] == "0" and not delivered_end:
+                    msgs.append("end: bool(gen) is false although the sequence has not ended (access #%s was the last)" % cur)
+                if res[0] == "1" and delivered_end:
+                    msgs.append("end: bool(gen) is still true after the end of the sequence was delivered")
+            if kind == "getid" and res and res[0] not in ("ok", "gone"):
+                msgs.append("sequence: get_id() %s" % res[0])
             if kind == "destroy" and not rejected:
                 alive = False
             if kind == "end":
@@ -471,8 +496,8 @@ class GenSuite(Suite):
 
     # ------------------------------------------------------------------ evidence
     def nontrivial(self, case, out):
-        served = sum(1 for l in out if re.match(r"(next|begin|inc) (true|false)|call (ready|pending)|pinc v", l)) + \
-            sum(l.count("anext=") + l.count("sub=v") for l in out) + sum(max(0, len(l.split(" ; ")[0].split()) - 1) for l in out if l.startswith("for "))
+        served = sum(1 for l in out if re.match(r"(next|nnext|begin|beginc|inc) (true|false)|call (ready|pending)|pinc v", l)) + \
+            sum(l.count("anext=") + l.count("sub=v") for l in out) + sum(max(0, len(l.split(" ; ")[0].split()) - 1) for l in out if l.startswith(("for ", "while ")))
         styles = {l.split()[0] for l in case["lines"][2:]} & set(ACCESS)
         acts = case["lines"][1].split()[1:] if len(case["lines"]) > 1 else []
         pend = any("helped=" in l for l in out) or any(l.startswith(("complete ;", "tcomplete ;")) for l in out)
@@ -540,11 +565,18 @@ class ExhSuite(GenSuite):
                 if idx % self.parts != self.part:
                     continue
                 mode = "a" if (idx // self.parts) % 3 == 0 else "v"
-                if mode == "a" and "for" in ops:
+                if mode == "a" and "for" in ops and not all((idx + j) % 2 for j, o in enumerate(ops) if o == "for"):
                     mode = "v"
                 lines = ["case 0 %s %d" % (mode, idx % 3), "script " + " ".join(acts)]
                 for j, o in enumerate(ops):
-                    lines.append("%s %d" % (o, 10 + 2 * j) if mode == "a" and o in ("next", "anext", "call", "subr 1") else o)
+                    # alternative spellings of the same model steps, selected by the (deterministic) case index
+                    if o == "next" and (idx + j) % 2:
+                        o = "nnext"
+                    elif o == "for" and (idx + j) % 2:
+                        o = "while"
+                    elif o == "value" and (idx + j) % 4 == 1:
+                        o = "active"
+                    lines.append("%s %d" % (o, 10 + 2 * j) if mode == "a" and o in ("next", "nnext", "anext", "call", "subr 1", "while") else o)
                 lines.append("end")
                 cases.append({"id": 0, "lines": lines})
         return cases
